@@ -534,6 +534,12 @@ async fn run_case(dir: &std::path::Path, case: &Value) -> Vec<Value> {
                         }
                     }
                 }
+                // the same instance, after whatever happened to the file meanwhile: its metadata are
+                // those of construction time
+                drop(s);
+                let (ls2, lns2) = catch(|| crf.last_modified()).ok().flatten().map(secs_ns).unwrap_or((i64::MIN / 4, 0));
+                ev.push(json!({"ev": "fmeta", "len": limbs(catch(|| crf.len()).unwrap_or(u64::MAX)), "lm_s": ls2, "lm_ns": lns2,
+                               "etag": crf_etag(&crf)}));
             }
             ev.push(json!({"ev": "fend"}));
         }
